@@ -6,6 +6,15 @@ props = {json.loads(l)["id"]: json.loads(l) for l in open(os.path.join(ROOT, "pr
 
 # id -> (technique, level text, level note, design ref)
 CLAIMS = {}
+TRANSLATED = {"C05": "G3: p-value tables of two_sample_core, one_sample, corr, sim_corr, stratified_permutationtest, stratified_two_sample",
+              "C14": "G3: alternative chains of hypergeometric and binomial_p",
+              "C01": "G4: k_sample p-value formulas", "C02": "G4: bivariate_k_sample p-value formulas",
+              "C07": "G4: npc row p-values, final count, sim_npc partial p-values", "C10": "G4: westfall_young raw / permutation / adjusted p-value assignments",
+              "C11": "G4: adjust_p base expressions", "C12": "G4: two-sided level split", "C13": "G4: two-sided level split",
+              "C15": "G4: Wald thresholds", "C18": "G4: simulate_ts_dist p-value",
+              "C03": "G2: parameter-write scan", "C06": "G1: numpy global generator call sites"}
+
+
 def claim(pid, technique, text, note, ref):
     CLAIMS[pid] = (technique, text, note, ref)
 
@@ -14,6 +23,9 @@ exec(open(os.path.join(ROOT, "tools", "claims.py")).read())
 checks = []
 for pid in sorted(CLAIMS):
     technique, text, note, ref = CLAIMS[pid]
+    if pid in TRANSLATED:
+        technique += "; + obligations regenerated from the source text on every run by a Python-AST -> Gallina translator (" + TRANSLATED[pid] + ")"
+        note += " The translator (harness/translate/tables.py, fail-closed, ~300 lines) is trusted to read the formulas it names."
     checks.append({
         "property_id": pid,
         "quick_cmd": f"./check {pid} --tier quick",
